@@ -722,3 +722,44 @@ func (c *Ctx) viaHelpers(pred callPred, depth int) callPred {
 		return c.mayReach(fn, func(g *types.Func) bool { return g != fn && pred(g, nil) }, depth)
 	}
 }
+
+// reachBlockEdges is reachBlock with an edge filter (edgeStop(b, i): do not follow successor i of b).
+func (f *Flow) reachBlockEdges(starts []point, stop nodePred, isTarget func(*cfg.Block) bool, edgeStop func(b *cfg.Block, si int) bool) bool {
+	seen := map[point]bool{}
+	stack := append([]point(nil), starts...)
+	first := true
+	for len(stack) > 0 {
+		pt := stack[len(stack)-1]
+		stack = stack[:len(stack)-1]
+		if seen[pt] {
+			continue
+		}
+		seen[pt] = true
+		if !first && pt.i == 0 && isTarget(pt.b) {
+			return true
+		}
+		first = false
+		stopped := false
+		for j := pt.i; j < len(pt.b.Nodes); j++ {
+			n := pt.b.Nodes[j]
+			if stop != nil && stop(n) {
+				stopped = true
+				break
+			}
+			if isReturn(n) {
+				stopped = true
+				break
+			}
+		}
+		if stopped {
+			continue
+		}
+		for si, s := range pt.b.Succs {
+			if edgeStop != nil && edgeStop(pt.b, si) {
+				continue
+			}
+			stack = append(stack, point{s, 0})
+		}
+	}
+	return false
+}
